@@ -70,7 +70,7 @@ def sym_parfront(args):
     ws = spec.level_vectors(n)
     wt = {w: ds.score_term(w, B, T) for w in ws}
     mn = zmin(list(wt.values()))
-    ex = fork.Explorer(fork.valid_scheme(B, T) + ds.constraints(), max_paths=int(1e5), timeout_ms=120000)
+    ex = fork.Explorer(fork.valid_scheme(B, T) + ds.constraints(), max_paths=int(1e5), timeout_ms=300000)
 
     def pay(mdl, what, cls, groups):
         lvs = ds.levels_from(mdl)
@@ -170,7 +170,7 @@ def run(run):
                              strata={"*": ["cycles3", "comp3plus1"]})
     items += sweep.history_items(run, ["Copeland"], [chk_parfront], 40 if run.thorough else 12)
     run.pmap("parfront", sweep.run_item, sweep.order_items(items), chunksize=2)
-    symb = [(2, 2), (3, 1), (3, 2), (2, 3)] + ([(3, 3), (4, 1)] if run.thorough else [])
+    symb = [(2, 2), (3, 1), (3, 2), (2, 3)] + ([(4, 1), (2, 4)] if run.thorough else [])
     run.bounds["parfront on symbolic datasets [S over datasets and schemes] (n, m)"] = symb
     run.pmap("sym_parfront", sym_parfront, symb)
     run.extra["work_items"] = len(items)
